@@ -383,6 +383,11 @@ def gen_cases(tier, seed, i, n):
                 if k % n == i:
                     yield k, {"group": [{"effect": e, "grouping": g}], "crossed": True, "wide": list(dims)}
                 k += 1
+    # long AND wide: more than 2**20 cells in one block (2080 rows x 520 groups), not a multiple of anything convenient
+    for e in ("1", "x"):
+        if k % n == i:
+            yield k, {"group": [{"effect": e, "grouping": "g:g2"}], "crossed": True, "wide": [130, 4], "reps_wide": 4}
+        k += 1
     rng = random.Random(seed * 1000003 + i * 13 + 5)
     nrand = (1600 if tier == "quick" else 30000) // n
     for j in range(nrand):
@@ -413,7 +418,7 @@ def finish(case, k, seed):
     if case.get("wide"):
         case["levels"]["g"], case["levels"]["g2"] = case["wide"]
         case["levels"]["k"], case["levels"]["s"] = 6, 2
-        case["reps"] = 2
+        case["reps"] = case.get("reps_wide", 2)
     return case
 
 
